@@ -239,7 +239,7 @@ def random_pieces(rng, n):
 ERROR_NAMES = ['success', 'success_join', 'parse_limit', 'parse_noselect', 'parse_update_field', 'syntax', 'runtime_k', 'unknown_join',
                'join_decode', 'input_decode', 'rfc_quote', 'header_width', 'monocolumn', 'missing_input', 'missing_outdir',
                'nonascii_latin1', 'strict_left_join', 'join_runtime', 'aggregate_misuse', 'sqlite_ok', 'sqlite_bad_table', 'sqlite_runtime',
-               'sqlite_missing_outdir', 'no_field', 'pipe_on_file', 'init_file_raises', 'init_file_ok', 'table_names_lookup', 'table_names_lookup_decode']
+               'sqlite_missing_outdir', 'no_field', 'pipe_on_file', 'init_file_raises', 'init_file_ok', 'table_names_lookup', 'table_names_lookup_decode', 'device_error_on_output', 'device_error_on_output']
 
 
 def gen_error_scenario(rng):
@@ -318,6 +318,15 @@ def gen_error_scenario(rng):
         sc['table_alias'] = 'myalias'
         if name == 'table_names_lookup_decode':
             sc['join_bad_pos'] = rng.randrange(max(1, len(sc['join_text'].encode('utf-8'))))
+    elif name == 'device_error_on_output':
+        # the output device fails with something other than EPIPE (disk full, I/O error) at some byte: an IO-error path
+        sc['out_to'] = 'file'
+        sc['file_budget'] = rng.choice([0, 1, 3, 7, 10, 20])
+        sc['device_errno'] = rng.choice([28, 5, 122])
+        # small text chunks into a somewhat larger byte buffer: the device error then strikes inside write() while earlier bytes
+        # are still waiting in the BufferedWriter, so the close in the clean-up path fails a second time
+        sc['sink'] = {'type': 'bytes', 'shape': 'std', 'bufsize': rng.choice([16, 16, 64, 8192]), 'tw_chunk': rng.choice([4, 8, 8, None])}
+        sc['query'] = rng.choice(['select *', q_join, 'select a1 order by a1', q_join, 'select a2, count(*) group by a2'])
     elif name == 'sqlite_bad_table':
         sc['sqlite_table'] = rng.choice(['nosuch', 'ta;drop table ta', 'ta x'])
     elif name == 'sqlite_runtime':
@@ -402,9 +411,24 @@ def apply_bad_byte(data, pos, byte):
     return None     # still valid UTF-8: not a fault
 
 
+def _open_fds():
+    out = {}
+    try:
+        names = os.listdir('/proc/self/fd')
+    except OSError:
+        return out
+    for n in names:
+        try:
+            out[n] = os.readlink('/proc/self/fd/' + n)
+        except OSError:
+            pass      # the descriptor of the listing itself
+    return out
+
+
 def run_once(sc, fault):
     """Execute the scenario under one fault (or None). Returns an observation dict (JSON-able)."""
     t = ensure_init()
+    fds_before = _open_fds()
     log = EventLog(cap=100000)
     Sim.log = log
     sink_cfg = sc.get('sink') or {}
@@ -422,6 +446,18 @@ def run_once(sc, fault):
             _run_process(t, sc, fault, obs)
     finally:
         Sim.log = None
+    # descriptors opened behind the back of open() (os.open, dup, ...) and never closed: compare /proc/self/fd
+    extra = {n: p for n, p in _open_fds().items() if n not in fds_before}
+    if extra:
+        import gc
+        gc.collect()
+        extra = {n: p for n, p in _open_fds().items() if n not in fds_before}
+    obs['fd_leak'] = sorted(set(extra.values()))
+    for n in extra:
+        try:
+            os.close(int(n))       # keep the harness process itself from running out of descriptors
+        except (OSError, ValueError):
+            pass
     # the private directory's name differs from process to process: keep it out of outcomes and digests
     wdir = fsseam.work_dir()
     if isinstance(obs.get('stderr'), str):
@@ -632,7 +668,7 @@ def _run_process(t, sc, fault, obs):
     budget = fault['budget'] if fault and fault['kind'] == 'sink_break_bytes' else None
     if sc.get('file_budget') is not None:
         budget = sc['file_budget']
-    out_raw = SimRawSink(budget, log=Sim.log, atomic=bool(sc.get('sink', {}).get('atomic')))
+    out_raw = SimRawSink(budget, log=Sim.log, atomic=bool(sc.get('sink', {}).get('atomic')), errno_code=sc.get('device_errno'))
     stdout = None
     to_file = sc.get('out_to') == 'file'
     if to_file:
@@ -844,6 +880,9 @@ def check_badbyte(sc, fault, obs, clean):
 def check_handles(obs):
     if obs.get('leaked'):
         return ('handle_leak', {'leaked': obs['leaked'], 'outcome': obs['outcome'], 'opened': obs.get('opened')})
+    if obs.get('fd_leak'):
+        wdir = fsseam.scratch_dir()
+        return ('fd_leak', {'descriptors_left_open': [p.replace(wdir, '<W>') for p in obs['fd_leak']], 'outcome': obs['outcome']})
     return None
 
 
@@ -917,7 +956,9 @@ def execute(sc):
         elif full['outcome'] == ['exit', 1]:
             bump(counters, 'fault.error_raised.cli_exit_1')
             res['nontrivial'] += 1
-        if full['fired']:
+        if full['fired'] and sc.get('device_errno'):
+            bump(counters, 'fault.device_error_fired')       # an error outcome is expected here; only the handle clause applies
+        elif full['fired']:
             bump(counters, 'fault.sink_break_fired')
             pv = check_pipe(sc, {'kind': 'file_budget'}, full, {'out': full['out']})
             if pv and pv[0] == 'pipe_escape' and not v:
